@@ -148,7 +148,81 @@ def resampling_check(schemes):
     return None
 
 
+def interp_native_cases():
+    """(case, failure-or-None): interpolation of node values stored in C order, Fortran order and as transposed / strided views, and Resampling between spaces
+    over the same set (different shapes; SAME shape with different node placement) - linear interpolation reproduces affine functions exactly between the nodes,
+    nearest interpolation returns the value of the closest node, Resampling(x) equals the interpolant of x evaluated at the grid points of the range"""
+    odl, np = _odl()
+    from odl.discr.discr_utils import linear_interpolator, nearest_interpolator, per_axis_interpolator
+    rng = np.random.default_rng(12)
+    for shape in ((4, 5), (3, 4, 3)):
+        cvecs = [np.sort(rng.uniform(0, 3, n)) + np.arange(n) * 0.1 for n in shape]
+        mesh = np.meshgrid(*cvecs, indexing='ij')
+        coef = rng.standard_normal(len(shape))
+        vals_c = sum(c * m for c, m in zip(coef, mesh)) + 0.7
+        layouts = {'C': np.ascontiguousarray(vals_c), 'F': np.asfortranarray(vals_c), 'transposed view': np.ascontiguousarray(vals_c.T).T,
+                   'strided view': np.repeat(vals_c, 2, axis=-1)[..., ::2]}
+        pts = np.array([rng.uniform(c[0], c[-1], 7) for c in cvecs])
+        want_lin = sum(c * p for c, p in zip(coef, pts)) + 0.7
+        for lname, vals in layouts.items():
+            for scheme in ('linear', 'per-axis linear', 'nearest', 'per-axis mixed'):
+                case = {'shape': list(shape), 'layout': lname, 'scheme': scheme}
+                try:
+                    if scheme == 'linear':
+                        got = linear_interpolator(vals, cvecs)(pts)
+                        bad = None if np.allclose(got, want_lin) else 'linear interpolation of an affine function on %s node values: %r, expected %r' % (lname, got, want_lin)
+                    elif scheme == 'per-axis linear':
+                        got = per_axis_interpolator(vals, cvecs, ['linear'] * len(shape))(pts)
+                        bad = None if np.allclose(got, want_lin) else 'per-axis linear interpolation of an affine function on %s node values: %r, expected %r' % (lname, got, want_lin)
+                    else:
+                        schemes = ['nearest'] * len(shape) if scheme == 'nearest' else (['nearest'] + ['linear'] * (len(shape) - 1))
+                        f = nearest_interpolator(vals, cvecs) if scheme == 'nearest' else per_axis_interpolator(vals, cvecs, schemes)
+                        got = f(pts)
+                        # reference: snap the nearest axes to the closest node (ties to the right are avoided by the random points), linear in the others
+                        snapped = pts.copy()
+                        for a, sch in enumerate(schemes):
+                            if sch == 'nearest':
+                                snapped[a] = cvecs[a][np.argmin(np.abs(cvecs[a][:, None] - pts[a][None, :]), axis=0)]
+                        ref = sum(c * p for c, p in zip(coef, snapped)) + 0.7
+                        bad = None if np.allclose(got, ref) else '%s interpolation on %s node values: %r, expected %r' % (scheme, lname, got, ref)
+                except Exception as e:
+                    bad = 'raised %s: %s' % (type(e).__name__, e)
+                yield case, bad
+    # Resampling
+    pairs = []
+    for nob_a, nob_b in ((False, True), (True, False), ((True, False), False), (False, False)):
+        pairs.append((odl.uniform_discr(0, 1, 5, nodes_on_bdry=nob_a), odl.uniform_discr(0, 1, 5, nodes_on_bdry=nob_b)))
+        pairs.append((odl.uniform_discr(0, 1, 4, nodes_on_bdry=nob_a), odl.uniform_discr(0, 1, 7, nodes_on_bdry=nob_b)))
+    pairs.append((odl.uniform_discr([0, 0], [1, 2], (4, 3), nodes_on_bdry=[True, False]), odl.uniform_discr([0, 0], [1, 2], (4, 3))))
+    pairs.append((odl.uniform_discr([0, 0], [1, 2], (4, 3)), odl.uniform_discr([0, 0], [1, 2], (6, 5), nodes_on_bdry=True)))
+    for A, B in pairs:
+        for interp in ('linear', 'nearest'):
+            case = {'domain': repr(A), 'range': repr(B), 'interp': interp}
+            try:
+                x = A.element(rng.standard_normal(A.shape))
+                R = odl.Resampling(A, B, interp)
+                f = (linear_interpolator if interp == 'linear' else nearest_interpolator)(x.asarray(), A.grid.coord_vectors)
+                ref = f(B.grid.meshgrid if B.ndim > 1 else B.grid.coord_vectors[0][None, :] if False else B.points().T)
+                got = R(x).asarray().ravel()
+                out = B.element(rng.standard_normal(B.shape))
+                R(x, out=out)
+                bad = None
+                if not np.allclose(got, np.asarray(ref).ravel()):
+                    bad = 'Resampling(%r -> %r, %r)(x) = %r, the interpolant of x at the range grid points is %r' % (A, B, interp, got, np.asarray(ref).ravel())
+                elif not np.allclose(out.asarray().ravel(), got):
+                    bad = 'Resampling(%r -> %r, %r): in-place result differs from out-of-place' % (A, B, interp)
+            except Exception as e:
+                bad = 'raised %s: %s' % (type(e).__name__, e)
+            yield case, bad
+
+
 def replay(ob):
+    if ob.get('unit', '').startswith('interp-native/'):
+        want = ob.get('model') or (ob.get('replay') or {}).get('case')
+        for case, bad in interp_native_cases():
+            if case == want:
+                return {'reproduced': bool(bad), 'detail': bad or 'holds natively', 'input': case}
+        return {'reproduced': False, 'detail': 'case not found'}
     if ob.get('unit', '').startswith('resampling/'):
         try:
             bad = resampling_check(tuple((ob.get('config') or {}).get('schemes')))
